@@ -224,6 +224,17 @@ def run_case(case, ctx):
             near = _try(lambda: Fxp(None, s, w, nf + (1 if j % 2 else -1)))
             if near is not None:
                 _try(lambda: near.resize(dtype=swapcase_some(fx, j + 1)))
+            # resize by a dtype string that differs from the object in ONE component only (signedness / word / fraction)
+            for so, wo, nfo in ((not s, w, nf), (s, w + 1, nf), (s, w, nf - 1)):
+                if (j + wo + nfo) % 3 == 0 and -8 <= nfo:
+                    oth = _try(lambda: Fxp(None, so, wo, nfo, dtype_notation=cfgnot))
+                    if oth is not None:
+                        _try(lambda: oth.resize(dtype=fx))
+                        _try(lambda: oth.get_dtype('fxp'))
+                        if w - nf >= 0:
+                            oth2 = _try(lambda: Fxp(None, so, wo, nfo))
+                            if oth2 is not None:
+                                _try(lambda: oth2.resize(dtype='%s%d.%d' % ('Q' if s else 'UQ', w - nf, nf)))
             if w - nf >= 0:
                 m = w - nf
                 fams = ['Q', 'S'] if s else ['UQ', 'U', 'QU']
